@@ -40,13 +40,19 @@ type Node {
   parent: Node @primary @relation(name: "tree")
   child: Node @relation(name: "tree")
 }
+type Emp {
+  name: String
+  grade: Int
+  boss: Emp @relation(name: "line")
+  reports: [Emp] @relation(name: "line")
+}
 `
 
 var c18Vals = map[string][]string{
 	"name":  {`"ann"`, `""`, `"q\"uote"`, `"line\nbreak"`, `"ünï"`, `"tab\there"`, `null`},
 	"age":   {`0`, `-1`, `21`, `2147483647`, `-2147483648`, `null`},
 	"big":   {`9007199254740993`, `-9007199254740993`, `9223372036854775807`, `-9223372036854775808`, `4294967296`, `1`, `null`},
-	"ratio": {`0.5`, `-1.25`, `1e300`, `5e-324`, `3.141592653589793`, `100`, `null`},
+	"ratio": {`0.5`, `-1.25`, `1e300`, `5e-324`, `3.141592653589793`, `100`, `null`, `-0.0`},
 	"when":  {`"2020-01-01T00:00:00Z"`, `"1999-12-31T23:59:59.123456789Z"`, `"2038-01-19T03:14:08.000000001Z"`, `null`},
 	"data":  {`"00ff"`, `""`, `"deadbeef"`, `null`},
 	"meta":  {`{"a": [1, 2.5, null, "x"], "b": {"c": true}}`, `[1, 2, 3]`, `"str"`, `12345678901234567890`, `17`, `null`, `{"big": 9007199254740993}`},
@@ -80,10 +86,15 @@ func genC18(seed int64, tier string) *Plan {
 	for i := 0; i < p.Cfg["nodes"]; i++ {
 		p.Steps = append(p.Steps, Step{K: "node", A: r.IntN(64), B: r.IntN(3)})
 	}
+	// a one-to-many self relation: employees, some their own boss, others reporting to them
+	p.Cfg["emps"] = pick(r, []int{0, 0, 2, 3, 4, 6})
+	for i := 0; i < p.Cfg["emps"]; i++ {
+		p.Steps = append(p.Steps, Step{K: "emp", A: r.IntN(64), B: r.IntN(4), C: r.IntN(64)})
+	}
 	// updates: a document that was updated gets a new identifier on import, so relations must follow the mapping
 	p.Cfg["upd"] = pick(r, []int{0, 1, 2, 3, 5})
 	for i := 0; i < p.Cfg["upd"]; i++ {
-		p.Steps = append(p.Steps, Step{K: "upd", A: r.IntN(4), B: r.IntN(64), C: r.IntN(64)})
+		p.Steps = append(p.Steps, Step{K: "upd", A: r.IntN(7), B: r.IntN(64), C: r.IntN(64)})
 	}
 	p.Steps = append(p.Steps, Step{K: "import", D: r.IntN(64)})
 	return p
@@ -98,6 +109,7 @@ func c18QueryAll(n *SimNode) (map[string]map[string]map[string]any, error) {
 		"User": "_docID name age big ratio when data meta tags nums flag",
 		"Book": "_docID title rating author_id",
 		"Node": "_docID label weight parent_id",
+		"Emp":  "_docID name grade boss_id",
 	}
 	for col, sel := range sels {
 		data, errs := n.GQL(fmt.Sprintf("query { %s { %s } }", col, sel))
@@ -144,7 +156,7 @@ func runC18(p *Plan, res *Result) {
 		src.fail("%v", err)
 		return
 	}
-	var userIDs, nodeIDs, bookIDs []string
+	var userIDs, nodeIDs, bookIDs, empIDs []string
 	for i, st := range p.Steps {
 		setRandStep(fmt.Sprintf("step|%d", i))
 		switch st.K {
@@ -182,9 +194,51 @@ func runC18(p *Plan, res *Result) {
 				return
 			}
 			bookIDs = append(bookIDs, fmt.Sprint(rows(data, "create_Book")[0]["_docID"]))
+		case "emp":
+			boss := "null"
+			if st.B != 0 && len(empIDs) > 0 {
+				boss = fmt.Sprintf("%q", empIDs[mod(st.C, len(empIDs))])
+			}
+			data, errs := s.GQL(fmt.Sprintf(`mutation { create_Emp(input: {name: "e%d", grade: %d, boss: %s}) { _docID } }`, i, mod(st.A, 9), boss))
+			if len(errs) > 0 {
+				src.fail("create emp: %v", errs)
+				return
+			}
+			empIDs = append(empIDs, fmt.Sprint(rows(data, "create_Emp")[0]["_docID"]))
 		case "upd":
 			var q string
 			switch st.A {
+			case 4:
+				// an employee who is their own boss
+				if len(empIDs) > 0 {
+					id := empIDs[mod(st.B, len(empIDs))]
+					if _, errs := s.GQL(fmt.Sprintf(`mutation { update_Emp(docID: %q, input: {boss: %q}) { _docID } }`, id, id)); len(errs) == 0 {
+						res.Stats["self_references"]++
+					}
+				}
+			case 6:
+				// a deleted document stays behind in the collection; it is not part of what is exported
+				switch mod(st.C, 3) {
+				case 0:
+					if len(userIDs) > 1 {
+						q = fmt.Sprintf(`mutation { delete_User(docID: %q) { _docID } }`, userIDs[mod(st.B, len(userIDs))])
+					}
+				case 1:
+					if len(bookIDs) > 0 {
+						q = fmt.Sprintf(`mutation { delete_Book(docID: %q) { _docID } }`, bookIDs[mod(st.B, len(bookIDs))])
+					}
+				default:
+					if len(empIDs) > 0 {
+						q = fmt.Sprintf(`mutation { delete_Emp(docID: %q) { _docID } }`, empIDs[mod(st.B, len(empIDs))])
+					}
+				}
+				if q != "" {
+					res.Stats["deletes_before_export"]++
+				}
+			case 5:
+				if len(empIDs) > 0 {
+					q = fmt.Sprintf(`mutation { update_Emp(docID: %q, input: {grade: %d}) { _docID } }`, empIDs[mod(st.B, len(empIDs))], 100+st.C)
+				}
 			case 0:
 				if len(userIDs) > 0 {
 					q = fmt.Sprintf(`mutation { update_User(docID: %q, input: {age: %d}) { _docID } }`, userIDs[mod(st.B, len(userIDs))], 100+st.C)
@@ -242,8 +296,16 @@ func runC18(p *Plan, res *Result) {
 	if subset {
 		cfg.Collections = []string{"User", "Book"}
 	}
-	if err := s.DB.BasicExport(s.reqCtx(), cfg); err != nil {
-		res.violate("C18", "export-failed", "", 0, "export of a healthy database failed: %v", err)
+	xerr, xpanic := func() (err error, p string) {
+		defer func() {
+			if r := recover(); r != nil {
+				p = fmt.Sprintf("%v @ %s", r, panicSite())
+			}
+		}()
+		return s.DB.BasicExport(s.reqCtx(), cfg), ""
+	}()
+	if xerr != nil || xpanic != "" {
+		res.violate("C18", "export-failed", "export-failed/"+errClassStr(fmt.Sprint(xerr, xpanic)), 0, "export of a healthy database failed: %v %s", xerr, xpanic)
 		return
 	}
 	if rawFile, rerr := os.ReadFile(file); rerr == nil && os.Getenv("VERIF_SHOWFILE") != "" {
@@ -273,7 +335,7 @@ func runC18(p *Plan, res *Result) {
 			return false
 		}
 		for col, docs := range srcRows {
-			if subset && col == "Node" {
+			if subset && (col == "Node" || col == "Emp") {
 				continue
 			}
 			if len(tgt[col]) != len(docs) {
@@ -289,7 +351,7 @@ func runC18(p *Plan, res *Result) {
 				trow := tgt[col][newID]
 				if trow == nil {
 					// find the document by its unique marker field to say what changed
-					marker := map[string]string{"User": "name", "Book": "title", "Node": "label"}[col]
+					marker := map[string]string{"User": "name", "Book": "title", "Node": "label", "Emp": "name"}[col]
 					for tid, cand := range tgt[col] {
 						if canon(cand[marker]) == canon(row[marker]) {
 							for f, v := range row {
@@ -318,6 +380,10 @@ func runC18(p *Plan, res *Result) {
 					if strings.HasSuffix(f, "_id") && v != nil {
 						if m, ok := mapping[fmt.Sprint(v)]; ok {
 							want = canon(m)
+						} else if !subset {
+							// the relation points to a document that is not in the file (it was deleted): there is
+							// nothing to relate to after the import
+							want = "null"
 						}
 					}
 					if got := canon(trow[f]); got != want {
@@ -598,7 +664,7 @@ func compareExports(a, b map[string][]map[string]any) string {
 		for _, d := range docs {
 			c := map[string]any{}
 			for k, v := range d {
-				if k != "_docID" {
+				if k != "_docID" && v != nil { // a null field and an absent one are the same document
 					c[k] = v
 				}
 			}
@@ -607,7 +673,7 @@ func compareExports(a, b map[string][]map[string]any) string {
 		for _, d := range b[col] {
 			c := map[string]any{}
 			for k, v := range d {
-				if k != "_docID" {
+				if k != "_docID" && v != nil {
 					c[k] = v
 				}
 			}
